@@ -3,6 +3,7 @@ package checks
 import (
 	"fmt"
 	"strings"
+	"sync/atomic"
 
 	"github.com/ipld/go-ipld-prime/datamodel"
 	"github.com/ipld/go-ipld-prime/node/basicnode"
@@ -241,10 +242,21 @@ func replayC12(c *core.Ctx, rp core.Replay) error {
 // typed maps, lists, structs and scalars: legal histories with the two pinned rejections injected.  The per-call contract
 // and "the result is exactly the accepted entries" are checked against the generator's expectations (the Lean assembler
 // model describes the generic builders; for typed builders the acceptance of values is C09's business).
+var c12WideCounter uint64
+
 func c12Typed(c *core.Ctx, r *core.Rand, n int) error {
 	cfg := core.DefaultSchemaCfg
 	for i := 0; i < n; i++ {
 		t := core.GenPlainSchema(r, 0)
+		wide := i%16 == 5
+		if wide {
+			// a struct around the 64-field mark (one machine word of field flags): the last fields are supplied twice
+			t = &core.SType{K: "struct", Name: fmt.Sprintf("C12W%d", atomic.AddUint64(&c12WideCounter, 1)), SRepr: "map"}
+			for f := 0; f < []int{63, 64, 65, 66, 70, 130}[r.Intn(6)]; f++ {
+				fn := fmt.Sprintf("f%d", f)
+				t.Fields = append(t.Fields, core.SField{Name: fn, Rename: fn, T: &core.SType{K: []string{"int", "str", "bool"}[r.Intn(3)], Name: fmt.Sprintf("C12W%d", atomic.AddUint64(&c12WideCounter, 1))}})
+			}
+		}
 		if t.K != "map" && t.K != "list" && t.K != "struct" {
 			continue
 		}
@@ -256,6 +268,21 @@ func c12Typed(c *core.Ctx, r *core.Rand, n int) error {
 		input := core.TypeInput(v)
 		inject := i%4 != 0
 		ops := core.GenHistory(input, r, inject, true)
+		if wide && len(ops) > 2 && ops[0].Kind == "BM" && ops[len(ops)-1].Kind == "F" {
+			// every field has been supplied: each of the last three once more, in the two ways a key can arrive
+			fin := ops[len(ops)-1]
+			ops = ops[:len(ops)-1]
+			for k := 1; k <= 3 && k <= len(t.Fields); k++ {
+				fn := []byte(t.Fields[len(t.Fields)-k].Name)
+				if k%2 == 1 {
+					ops = append(ops, core.AsmOp{Kind: "AE", Key: fn, Expect: "e:repeatedKey"})
+				} else {
+					ops = append(ops, core.AsmOp{Kind: "AK", Expect: "ok"}, core.AsmOp{Kind: "A", V: core.Val{K: 's', S: fn}, Expect: "e:repeatedKey"})
+				}
+			}
+			ops = append(ops, fin)
+			c.Dist("wide-struct-repeated-late-field")
+		}
 		nb, err := sc.Eng.NewTypeBuilder(t.Name)
 		if err != nil {
 			return err
